@@ -11,8 +11,18 @@ import (
 	"verifsim/simrt"
 )
 
+// WaitGroup is sync.WaitGroup whose Go method (Go 1.25) starts a scheduled task like a rewritten `go` statement does.
+type WaitGroup struct{ sync.WaitGroup }
+
+func (wg *WaitGroup) Go(f func()) {
+	wg.Add(1)
+	simrt.Go("WaitGroup.Go", func() {
+		defer wg.Done()
+		f()
+	})
+}
+
 type (
-	WaitGroup = sync.WaitGroup
 	Once      = sync.Once
 	Pool      = sync.Pool
 	Map       = sync.Map
